@@ -20,7 +20,7 @@ import (
 
 // C19 — ToSQL writes each row as one INSERT; ReadSQL rebuilds the result set.
 
-var evC19 = ev.New("C19", "(a) derived frames with >=1 row of all column types (string/enum columns not entirely null) x dialect (escape character none/\"/`, ? or $n placeholders, table names, Postgres/MySQL/SQLite presets): "+
+var evC19 = ev.New("C19", "(a) derived frames with >=1 row of all column types (string/enum columns not entirely null) x dialect (escape character none/\"/`/'/non-ASCII, ? or $n placeholders, table names, Postgres/MySQL/SQLite presets): "+
 	"one recorded statement per row in frame order, each parsed by a tolerant tokenizer as INSERT INTO <table> (<all columns in frame order>) VALUES (<n placeholders>), arguments = that row's cells (null string => NULL), "+
 	"and ReadSQL of the stored rows reproduces the frame (enum => string); (b) generated result sets with NULLs in text/float columns (leading, middle, trailing), Int64ToBool/StringToFloat coercions and Precision: names, order, values, NULL => null/NaN, "+
 	"precision as a predicate; non-trivial = >=2 rows and (non-identity index or a NULL or escape+incrementing dialect); distinct = FNV-64 of the case rendering")
